@@ -4,7 +4,9 @@ Same model and correspondence as C05 (`harness/props/c05.py`: real urllib3 on th
 vs `u3model manager`, ordered wire log + outcome), with a generator biased towards header carriers
 (plain dicts incl. case-duplicate keys, `HTTPHeaderDict` with repeated fields, manager / pool level
 defaults; every casing of the sensitive names; custom `remove_headers_on_redirect` sets) and chains
-that cross origins differing in host, port, scheme, or only in letter case / explicit default port.
+that cross origins differing in host, port, scheme, or only in letter case / explicit default port; a
+small share of the cases enters a `PoolManager` through a scheme-less URL `//host/path` (deprecated,
+still served as http), where `urljoin` keeps scheme-relative Locations scheme-relative.
 Every case also carries a few direct `is_same_host` probes (`samehost` lines of the driver).
 
 Oracles (implementation only, the property text):
@@ -21,27 +23,51 @@ Oracles (implementation only, the property text):
 """
 from __future__ import annotations
 
-from urllib.parse import urlsplit
+from urllib.parse import urlsplit, urljoin
 
 from ..core import Prop, Failure, enc
 from . import c05 as M
 from .c05 import (REDIRECT, CONTENT_SPECIFIC, DEFAULT_PORT, ORIGIN_SPELLINGS, ORIGINS, origin_of, supplied_policy,
-                  budget_of, user_section, is_followable, placement_of)
+                  budget_of, user_section, is_followable, placement_of, request_uri_of)
 
 
 def proxy_origin(case):
     return origin_of(case["proxy"]) if case["client"] == "px" else None
 
 
+def code_seen_urls(case, reqs):
+    """the `url` argument of the `PoolManager.urlopen` pass that sent request i: the entry URL, then
+    `urljoin(previous url, Location)` — what `is_same_host` is asked about"""
+    cur = case["url"]
+    out = [cur]
+    for r in reqs[:-1]:
+        cur = urljoin(cur, r["location"] or "")
+        out.append(cur)
+    return out
+
+
+def _flags(as_code_judges):
+    """`True` (historic spelling) = judge forwarded hops the way the code does; otherwise a tuple of
+    {"proxy", "schemerel"}"""
+    if as_code_judges is True:
+        return ("proxy",)
+    return tuple(as_code_judges or ())
+
+
 def crossings(case, reqs, as_code_judges=False):
-    """indices i >= 1 whose request goes to another origin than request i-1.  With
-    `as_code_judges`, a hop leaving a *forwarded* request is judged the way `PoolManager.urlopen`
-    does it behind a forwarding proxy — against the proxy's own origin."""
+    """indices i >= 1 whose request goes to another origin than request i-1.  With the flag
+    `proxy`, a hop leaving a *forwarded* request is judged the way `PoolManager.urlopen` does it behind
+    a forwarding proxy — against the proxy's own origin; with the flag `schemerel`, a hop whose target
+    URL (as the code sees it) starts with `/` is judged the way `is_same_host` does it — same host."""
+    flags = _flags(as_code_judges)
     px = proxy_origin(case)
+    seen = code_seen_urls(case, reqs) if "schemerel" in flags and case["client"] != "pool" else None
     out = []
     for i in range(1, len(reqs)):
         a, b = reqs[i - 1], reqs[i]
-        if as_code_judges and px is not None and not a["tunnel"] and a["dial"] == px:
+        if seen is not None and seen[i].startswith("/"):
+            continue
+        if "proxy" in flags and px is not None and not a["tunnel"] and a["dial"] == px:
             if b["dest"] != px:
                 out.append(i)
         elif a["dest"] != b["dest"]:
@@ -112,7 +138,46 @@ def classify(case, reqs, outcome, kind):
             return "leak:proxymanager-forwarding-same-host-judged-against-proxy"
         if place == "manager" and kind not in kinds(c_nomgr, True):
             return "leak:manager-constructor-policy-ignored+proxymanager-forwarding-same-host-judged-against-proxy"
+    if case["client"] == "pm" and kind == "leak" and any(u.startswith("/") for u in code_seen_urls(case, reqs)[1:]):
+        if kind not in kinds(case, ("schemerel",)):
+            return "leak:scheme-relative-target-judged-same-host"
     return f"{kind}:placement={place}:client={case['client']}:unexplained"
+
+
+def gen_schemeless_case(rng):
+    """a `PoolManager` asked for a scheme-less URL `//host[:port]/path` (deprecated; served as http):
+    `urljoin` keeps scheme-relative Locations scheme-relative, which is what `is_same_host` then sees"""
+    http_origins = [o for o in ORIGINS if o[0] == "http"]
+    hp = lambda o: rng.choice([sp.split("://", 1)[1] for sp in ORIGIN_SPELLINGS[o]])
+    start = rng.choice(http_origins)
+    cur = "//" + hp(start) + rng.choice(["/p0", "/d/p0", "/d/e/p0?x=1"])
+    entry, urls, rules, seen = cur, [cur], [], set()
+    for i in range(rng.randint(1, 4)):
+        o = origin_of(cur)
+        key = (o, request_uri_of(cur))
+        if key in seen:
+            break
+        seen.add(key)
+        tgt = rng.choice(http_origins)
+        path = rng.choice([f"/p{i + 1}", f"/d/p{i + 1}?y={i}"])
+        r = rng.random()
+        if r < 0.55:
+            loc = "//" + hp(tgt) + path                          # scheme-relative
+        elif r < 0.75:
+            loc = rng.choice([path, f"q{i + 1}", f"../q{i + 1}"])  # relative: stays on the origin
+        else:
+            loc = rng.choice(ORIGIN_SPELLINGS[rng.choice(ORIGINS)]) + path
+        rules.append([o[0], o[1], o[2], "*", request_uri_of(cur), rng.choice(REDIRECT), loc])
+        cur = urljoin(cur, loc)
+        urls.append(cur)
+    case = {"client": "pm", "rules": rules, "urls": urls, "url": entry,
+            "method": rng.choice(["GET", "GET", "POST"]), "via": rng.choice([0, 1])}
+    if rng.random() < 0.3:
+        case["ret"] = rng.choice([{"total": 10, "remove": ["X-Secret"]}, {"redirect": 5, "remove": ["x-secret", "Cookie"]}, 5])
+    if rng.random() < 0.2:
+        case["mhdr"] = M.gen_headers(rng, 0.8)
+    case["hdr"] = M.gen_headers(rng, 0.8) or ["d", [["Authorization", "s"], ["X-Keep", "k"]]]
+    return case
 
 
 # ------------------------------------------------------------------------------ is_same_host probes
@@ -166,7 +231,8 @@ class C06(M.C05):
             "HTTPHeaderDict with repeated fields, manager / pool defaults; 11 casings of Authorization / Cookie / "
             "Proxy-Authorization; custom remove_headers_on_redirect sets incl. the empty one; chains A->B->A, "
             "relative hops after a cross-origin hop, origins differing only in letter case or explicit default "
-            "port; ProxyManager chains that touch the proxy's own origin) plus 3 direct is_same_host probes per "
+            "port; ProxyManager chains that touch the proxy's own origin; ~3% PoolManager chains entered through a "
+            "scheme-less URL //host/path with scheme-relative Locations) plus 3 direct is_same_host probes per "
             "case. Oracles on the wire log: after the first origin-changing hop no request carries a header whose "
             "lower-cased name is in the supplied policy's remove set; all other caller header lines re-appear in "
             "the follow-up request; an asserting bare pool ends a cross-origin redirect in HostChangedError with "
@@ -181,8 +247,10 @@ class C06(M.C05):
             r = rng.random()
             if r < 0.5:
                 c = M.gen_manager_case(rng, "pm", "headers")
-            elif r < 0.85:
+            elif r < 0.83:
                 c = M.gen_manager_case(rng, "px", "headers")
+            elif r < 0.86:
+                c = gen_schemeless_case(rng)
             else:
                 c = M.gen_pool_case(rng)
             if c["client"] != "pool" and not (c.get("hdr") or c.get("mhdr")):
@@ -199,6 +267,8 @@ class C06(M.C05):
         res.bump("client:" + case["client"])
         res.bump("placement:" + placement_of(case))
         res.bump("crossings:%d" % len(crossings(case, reqs)))
+        if case["url"].startswith("//"):
+            res.bump("entry:scheme-less")
         for k in ("hdr", "mhdr", "phdr"):
             if case.get(k):
                 res.bump(f"carrier:{k}:{case[k][0]}")
